@@ -20,8 +20,25 @@ STD_NAMES = ("area", "time", "longitude")
 
 
 # ---- Gallina printers --------------------------------------------------------
+import re
+
+_BASES = {"domainaxis": "DomainAxis", "dimensioncoordinate": "DimCoord", "auxiliarycoordinate": "AuxCoord",
+          "domainancillary": "DomainAnc", "fieldancillary": "FieldAnc", "cellmeasure": "CellMeasure",
+          "coordinatereference": "CoordRef", "cellmethod": "CellMethod"}
+_KEY = re.compile(r"^(" + "|".join(_BASES) + r")(0|[1-9][0-9]{0,2})$")
+
+
+def gkey(k):
+    """A construct identifier: `K <type> <n>` (Run.K) for the usual form, a
+    string literal otherwise."""
+    m = _KEY.match(k)
+    if m:
+        return f"(K {_BASES[m.group(1)]} {int(m.group(2))})"
+    return gstr(k)
+
+
 def g_keys(ks):
-    return glist(ks, gstr)
+    return glist(ks, gkey)
 
 
 def g_zs(zs):
@@ -36,7 +53,7 @@ def g_payload(t, p):
         if isinstance(ancs, dict):
             ancs = sorted(ancs.items())
         return (f"(PRef {g_keys(p['coords'])} "
-                f"{glist(ancs, lambda ta: '(' + gstr(ta[0]) + ', ' + gopt(ta[1], gstr) + ')')})")
+                f"{glist(ancs, lambda ta: '(' + gstr(ta[0]) + ', ' + gopt(ta[1], gkey) + ')')})")
     if t == "cell_method":
         return f"(PCm {g_keys([a for a in p['axes'] if a not in STD_NAMES])})"
     shape, hasdata, bnd = p.get("shape"), p.get("hasdata", True), p.get("bnd")
@@ -58,17 +75,17 @@ def g_op(op):
     if k == "set":
         c = op["c"]
         return (f"(SetConstruct {VIA[op.get('via')]} {CT[c['t']]} {g_payload(c['t'], c)} "
-                f"{gopt(op.get('key'), gstr)} {gopt(norm_axes(op.get('axes')), g_keys)})")
+                f"{gopt(op.get('key'), gkey)} {gopt(norm_axes(op.get('axes')), g_keys)})")
     if k == "del":
-        return f"(DelConstruct {VIA[op.get('via')]} {gstr(op['key'])})"
+        return f"(DelConstruct {VIA[op.get('via')]} {gkey(op['key'])})"
     if k == "set_data":
         return f"(SetData {g_zs(op['shape'])} {gopt(norm_axes(op.get('axes')), g_keys)})"
     if k == "del_data":
         return "DelData"
     if k == "set_data_axes":
-        return f"(SetDataAxes {VIA[op.get('via')]} {g_keys(norm_axes(op['axes']))} {gopt(op.get('key'), gstr)})"
+        return f"(SetDataAxes {VIA[op.get('via')]} {g_keys(norm_axes(op['axes']))} {gopt(op.get('key'), gkey)})"
     if k == "del_data_axes":
-        return f"(DelDataAxes {VIA[op.get('via')]} {gopt(op.get('key'), gstr)})"
+        return f"(DelDataAxes {VIA[op.get('via')]} {gopt(op.get('key'), gkey)})"
     if k == "copy":
         return "Copy"
     if k == "subspace":
@@ -78,17 +95,17 @@ def g_op(op):
     if k == "transpose":
         return f"(Transpose {gopt(op.get('axes'), g_zs)} {gbool(op['constructs'])} {gbool(op['inplace'])})"
     if k == "insert_dimension":
-        return (f"(InsertDimension {gopt(op.get('axis'), gstr)} {gz(op['position'])} "
+        return (f"(InsertDimension {gopt(op.get('axis'), gkey)} {gz(op['position'])} "
                 f"{gbool(op['constructs'])} {gbool(op['inplace'])})")
     if k == "convert":
-        return f"(Convert {gstr(op['key'])} {gbool(op['full_domain'])})"
+        return f"(Convert {gkey(op['key'])} {gbool(op['full_domain'])})"
     raise ValueError(k)
 
 
 def g_state(st):
-    cons = glist(st["cons"], lambda e: f"({CT[e[0]]}, {gstr(e[1])}, {g_payload(e[0], e[2])})")
-    ctys = glist(st["ctypes"], lambda e: f"({gstr(e[0])}, {CT[e[1]]})")
-    cax = glist(st["caxes"], lambda e: f"({gstr(e[0])}, {g_keys(e[1])})")
+    cons = glist(st["cons"], lambda e: f"({CT[e[0]]}, {gkey(e[1])}, {g_payload(e[0], e[2])})")
+    ctys = glist(st["ctypes"], lambda e: f"({gkey(e[0])}, {CT[e[1]]})")
+    cax = glist(st["caxes"], lambda e: f"({gkey(e[0])}, {g_keys(e[1])})")
     return f"({cons}, {ctys}, {cax}, {gopt(st['fshape'], g_zs)}, {gopt(st['faxes'], g_keys)})"
 
 
@@ -212,7 +229,7 @@ def run(chk, model_ok):
     cases = []
     for i, (name, ops) in enumerate(CORPUS):
         cases.append({"id": len(cases), "ops": ops, "fam": "corpus:" + name})
-    n_hist = 6000 if thorough else 700
+    n_hist = 5000 if thorough else 450
     for i in range(n_hist):
         r = rng.random()
         if r < 0.7:
@@ -263,7 +280,7 @@ def run(chk, model_ok):
     ncorr = 0
     if model_ok:
         lits = [g_case(steps) for c, steps in done]
-        bad = lib.coq_bad_indices("C02", REQ, "check_case", lits, chunk=12)
+        bad = lib.coq_bad_indices("C02", REQ, "check_case", lits, chunk=30)
         ncorr = len(lits)
         shown = 0
         for i in bad:
